@@ -36,10 +36,11 @@ for nm, ty, n, tier in (("simple", "+", 6, "quick"), ("error", "-", 6, "thorough
       encodes=["RespParser::parse", "parse_frame", "parse_line", "leaf parsers"],
       bounds="%d bytes, first concrete '%s', rest symbolic; all split points 1..%d enumerated concretely inside the harness; unwind 8" % (n, ty, n - 1),
       stubs=FMT + CUT)
-for nm, n in (("len0", 6),):   # len1 (7 bytes): CBMC out of memory at 14 GB - not registered; the 7-byte region is c20_prefix_bulk (thorough)
-    K("c20_prefix_blk_" + nm, "proto", ["C20", "C05"], tier="quick", timeout=1800,
-      desc="prefix lemma for bulk strings with a CONCRETE declared length ('$%s' + arbitrary bytes): every split point, in particular between the CR and the LF of the trailer: parse(prefix) frame => same frame from the whole, Err => Err, need-more otherwise" % nm[-1],
-      encodes=["RespParser::parse", "parse_frame", "parse_bulk_string", "parse_line"], bounds="%d bytes, the first two concrete, rest symbolic; all split points; unwind 8" % n, stubs=FMT + CUT)
+# c20_prefix_blk_len1 (7 bytes): CBMC out of memory at 14 GB - not registered; the 7-byte region is c20_prefix_bulk (thorough)
+for nm, tier, what in (("trailer", "quick", "the two split points around the trailer (before it, and between its CR and LF)"), ("all", "thorough", "every split point (950 s)")):
+    K("c20_prefix_blk0_" + nm, "proto", ["C20", "C05"], tier=tier, timeout=1800,
+      desc="prefix lemma for bulk strings with a CONCRETE declared length ('$0' + 4 arbitrary bytes), " + what + ": parse(prefix) frame => same frame from the whole, Err => Err, need-more otherwise",
+      encodes=["RespParser::parse", "parse_frame", "parse_bulk_string", "parse_line"], bounds="6 bytes, the first two concrete, rest symbolic; split points " + ("4 and 5" if nm == "trailer" else "1..5") + "; unwind 8", stubs=FMT + CUT)
 for nm, ty in (("inline_p", "P"), ("simple", "+")):
     K("c20_prefix_off_" + nm, "proto", ["C20", "C05"], tier="quick" if nm == "inline_p" else "thorough", timeout=1800 if nm == "inline_p" else 2400, mem_gb=None if nm == "inline_p" else 28,
       desc="prefix lemma with a READ OFFSET: two consumed bytes in front of the input (position = 2, not yet compacted), input starting with '%s', every split point: the parser must look only at buffer[position..]" % ty,
